@@ -48,4 +48,20 @@ def writeBorder (h12 value : Int) : Int := lor (land h12 241) ((land value 7) * 
 /-- `self.border = (header[12] // 2) % 8` -/
 def readBorder (h12 : Int) : Int := (h12 / 2) % 8
 
+/-- `get_dword(block, 29)`: all four bytes -/
+def szxReadT4 (b : Int × Int × Int × Int) : Int :=
+  b.1 + 256 * b.2.1 + 65536 * b.2.2.1 + 16777216 * b.2.2.2
+
+/-- `SZX._add_zxstz80regs`: `z80r[offset] = value % 256; z80r[offset + 1] = (value // 256) % 256` -/
+def szxWriteWord (value : Int) : Int × Int := (value % 256, (value / 256) % 256)
+
+/-- `_set_state` 'im': `header[29] &= 252; header[29] |= value & 3` -/
+def writeIm (h29 value : Int) : Int := lor (land h29 252) (land value 3)
+/-- `self.im = self.header[29] % 4` -/
+def readIm (h29 : Int) : Int := h29 % 4
+/-- `_set_state` 'issue2': `header[29] &= 251; header[29] |= (value & 1) * 4` -/
+def writeIssue2 (h29 value : Int) : Int := lor (land h29 251) ((land value 1) * 4)
+/-- bit 2 of byte 29 (Z80 format description) -/
+def readIssue2 (h29 : Int) : Int := (h29 / 4) % 2
+
 end SnapHeader
